@@ -38,8 +38,22 @@ def what_of(r):
     return f"{r['isa']} {sh['kind']} shape {json.dumps({k: v for k, v in sh.items() if k != 'kind'})}: {r['status']} at {r.get('failed') or r.get('what')}{extra}"
 
 
+def min_universe(sh):
+    """smallest universe in which the shape's precondition is satisfiable: the blocks of the object(s) it builds or
+    takes apart, one block on the linear list and the frontier block"""
+    import heap
+    k = sh['kind']
+    if k in ('let', 'create'):
+        return len(heap.chain_layout(sh['args'] if k == 'let' else sh['env'])) + 2
+    if k == 'switch':
+        return max(len(heap.chain_layout(c)) for c in sh['clauses']) + 2
+    if k == 'method':
+        return len(heap.chain_layout(sh['env'])) + 2
+    return 2
+
+
 def items_for(isa, shapes, N, classes, timeout_ms):
-    return [{'isa': isa, 'shape': sh, 'N': N, 'classes': classes, 'timeout_ms': timeout_ms} for sh in shapes]
+    return [{'isa': isa, 'shape': sh, 'N': max(N, min_universe(sh)), 'classes': classes, 'timeout_ms': timeout_ms} for sh in shapes]
 
 
 def run_items(chk, items, rule, extra_cov=None):
